@@ -26,6 +26,8 @@ FOREIGN = [
     b"caf\xc3\xa9 \xe6\xbc\xa2", b"invalid \xff\xfe bytes", b"trunc \xc3", LONG,
     b"\x1b[33m" + LONG + b"\x1b[m", b"Notes:", b"rename", b"index", b"Binary", b"Submodule",
     b"commits", b"diffstat", b"# comment", b"* bullet", b"> quote", b"1 file changed",
+    # diffstat look-alikes that do not start with a blank (tool output, `git log --graph --stat`)
+    b"warning: src/a.rs | 12 problems found", b"| src/a.rs | 2 +-", b"x | 1 +",
 ]
 
 CALLERS = [None, ["git", "log", "-p"], ["git", "show"], ["git", "diff"]]
